@@ -288,22 +288,112 @@ fn nesting_family(kind: usize, depth: usize) -> String {
             }
             s.push_str(&")".repeat(depth));
         }
-        _ => {
+        9 => {
             s.push_str("local x: ");
             for _ in 0..depth {
                 s.push_str("(a: number) -> ");
             }
             s.push_str("nil = y");
         }
+        // chains in the value of an unused local, in a condition and in a discarded argument: the
+        // default rules ask the static evaluator about every level (value, truthiness, side effects)
+        10 => {
+            s.push_str("local v = 1");
+            s.push_str(&" + 1".repeat(depth));
+        }
+        11 => {
+            s.push_str("local v = a");
+            for i in 0..depth {
+                s.push_str([" + a", " .. a", " * 2", " - a", " // a", " % 3"][i % 6]);
+            }
+        }
+        12 => {
+            s.push_str("local v = 'a'");
+            s.push_str(&" .. 'a'".repeat(depth));
+            s.push_str("\nlocal w = 2");
+            s.push_str(&" ^ 2".repeat(depth));
+        }
+        13 => {
+            s.push_str("local v = a");
+            for i in 0..depth {
+                s.push_str([" and 1", " or nil", " and a", " or false"][i % 4]);
+            }
+            s.push_str("\nif 1");
+            for i in 0..depth {
+                s.push_str([" and 1", " or nil", " and true", " or false"][i % 4]);
+            }
+            s.push_str(" then f() end");
+        }
+        14 => {
+            s.push_str("if 1");
+            s.push_str(&" + 1".repeat(depth));
+            s.push_str(" == 0 then f() end\nwhile 1");
+            s.push_str(&" - 1".repeat(depth));
+            s.push_str(" > 0 do f() end");
+        }
+        15 => {
+            s.push_str("local v = t");
+            for i in 0..depth {
+                s.push_str([".a", "[1]", "['k']", ".b.c"][i % 4]);
+            }
+            s.push_str("\nlocal w = f");
+            s.push_str(&"()".repeat(depth));
+        }
+        16 => {
+            s.push_str("local v = ");
+            for i in 0..depth {
+                s.push_str(["-(", "not (", "#(", "-("][i % 4]);
+            }
+            s.push('1');
+            s.push_str(&")".repeat(depth));
+            s.push_str("\nlocal w = ");
+            s.push_str(&"not ".repeat(depth));
+            s.push('a');
+        }
+        17 => {
+            s.push_str("local v = ");
+            for _ in 0..depth {
+                s.push_str("{ 1, k = ");
+            }
+            s.push_str("{}");
+            s.push_str(&" }".repeat(depth));
+        }
+        18 => {
+            s.push_str("local v = ");
+            for i in 0..depth {
+                s.push_str(["if true then 1 else ", "if a then 1 elseif nil then 2 else ", "if false then 1 else "][i % 3]);
+            }
+            s.push('2');
+            s.push_str("\nlocal w = ");
+            for _ in 0..depth {
+                s.push_str("if 1 + 1 == 2 then ");
+            }
+            s.push('1');
+            s.push_str(&" else 2".repeat(depth));
+        }
+        _ => {
+            s.push_str("local v = ");
+            for _ in 0..depth {
+                s.push_str("`a{");
+            }
+            s.push('1');
+            s.push_str(&"}b`".repeat(depth));
+            s.push_str("\nlocal w = ((1 + 1) * (2 + 2))");
+            for _ in 0..depth {
+                s.push_str(" + ((1 + 1) * (2 + 2))");
+            }
+        }
     }
     s
 }
+
+const NESTING_FAMILIES: u64 = 20;
 
 fn run(ctx: &RunCtx) {
     cfg::setup_env();
     let default_cfg = "{ }";
     // (c) nesting families, in process (bounded depth)
-    ctx.enumerate("nesting", 10 * 40, |i, st| {
+    ctx.enumerate("nesting", NESTING_FAMILIES * 40, |i, st| {
         let text = nesting_family((i / 40) as usize, 1 + (i % 40) as usize);
         st.class("nesting_case");
         if let Err(f) = check_parse(&text) {
